@@ -42,3 +42,19 @@ Proof. intros Out fin key g.
   rewrite hutch_site_value. unfold hutch.
   pose proof (pure_loop_is_loop (dflt42 sha key) (S max_iters) (st0 T zero)) as H. cbn [st0 it chain] in H. rewrite H. reflexivity. Qed.
 End Link.
+
+(* mean form of the exactness theorem: whatever `x / count` is, as long as it inverts repeated addition (true in every
+   field of characteristic 0, and of binary64 division on the integer sums of the exact tier), the returned mean of a
+   diagonal operator under probes with entries of square one is its diagonal - for every probe matrix *)
+Section MeanForm.
+Context {R : Type} {RR : Base.Ring R}.
+Variable divn : R -> nat -> R.
+Hypothesis divn_spec : forall m x, 0 < m -> divn (nmul m x) m = x.
+Theorem hutch_exact_mean : forall (n bs : nat) (A : nat -> nat -> R) (probe : nat -> nat -> nat -> R),
+  (forall i j, i < n -> j < n -> i <> j -> A i j = Base.r0) ->
+  (forall t j b, j < n -> b < bs -> Base.rmul (probe t j b) (probe t j b) = Base.r1) ->
+  forall m i, i < n -> 0 < m * bs ->
+  divn (dsum (blocks n bs 0%Z A probe m) i) (it (blocks n bs 0%Z A probe m) * bs) = A i i.
+Proof. intros n bs A probe Hd Hp m i Hi Hm. rewrite blocks_it. rewrite (hutch_exact_sums n bs 0%Z A probe Hd Hp eq_refl m i Hi).
+  apply divn_spec. exact Hm. Qed.
+End MeanForm.
